@@ -760,7 +760,8 @@ def run(ctx) -> None:
     c5 = CFG(pm)
     rt = match.test_nodes(c5, lambda e: "T" if (
         isinstance(e, ast.Compare) and isinstance(e.ops[0], ast.Eq) and
-        any(isinstance(x, ast.Call) and last_attr(x) == "_restartComponent" for x in (e.left, e.comparators[0])) and
+        any(isinstance(x, ast.Call) and last_attr(x) == "_restartComponent"
+            for x in (match.resolve_local(pm, e.left), match.resolve_local(pm, e.comparators[0]))) and
         any(codes_key(x, "restartCodes") == "RestartInitiated" for x in (e.left, e.comparators[0]))) else None)
     ctx.require(bool(rt), "anchor missing: restart test in postMortemCheck")
     check_refusals_everywhere(ctx, ctl)
